@@ -140,11 +140,11 @@ def register(reg, repo):
             ("pair", "seqlen(result) == 2"),
             ("missing-next", "implies(isnone(next_state), result[0] == 'States.Runtime' and n_pub == old(n_pub) "
                              "and n_hist == old(n_hist) and unchanged(event['context']['State']))"),
-            ("over-limit", "implies(not isnone(next_state) and old(strlen(dumps(event['data']))) > 262144, "
+            ("C16:over-limit", "implies(not isnone(next_state) and old(strlen(dumps(event['data']))) > 262144, "
                            "result[0] == 'States.DataLimitExceeded' and n_pub == old(n_pub) and n_hist == old(n_hist) "
                            "and unchanged(event['context']['State']))"),
             # C16: exactly at the limit is accepted
-            ("at-limit-accepted", "implies(not isnone(next_state) and old(strlen(dumps(event['data']))) <= 262144, "
+            ("C16:at-limit-accepted", "implies(not isnone(next_state) and old(strlen(dumps(event['data']))) <= 262144, "
                                   "isnone(result[0]) and isnone(result[1]))"),
             ("error-is-string", "implies(not isnone(result[0]), isstr(result[0]) and isstr(result[1]))"),
             ("publish-iff-ok", "iff(isnone(result[0]), n_pub == old(n_pub) + 1)"),
@@ -154,13 +154,13 @@ def register(reg, repo):
             ("published-next-state", "implies(isnone(result[0]), "
                                      "at_snapshot('pub_heap', event['context']['State']['Name']) == next_state)"),
             # C07: retry counters do not leak into the next state
-            ("counters-reset", "implies(isnone(result[0]), "
+            ("C07:counters-reset", "implies(isnone(result[0]), "
                                "not at_snapshot('pub_heap', 'RetryCount' in event['context']['State']) and "
                                "not at_snapshot('pub_heap', 'RetryTimeout' in event['context']['State']))"),
             ("published-data-untouched", "implies(isnone(result[0]), "
                                          "same(at_snapshot('pub_heap', event['data']), old(event['data'])))"),
             # C09: StateExited with the output, before the transition
-            ("exited-logged", "implies(isnone(result[0]), n_hist == old(n_hist) + 1 and "
+            ("C09:exited-logged", "implies(isnone(result[0]), n_hist == old(n_hist) + 1 and "
                               "hist_type == state_type + 'StateExited' and "
                               "at_snapshot('hist_heap', hist_details['output']) == old(dumps(event['data'])) and "
                               "at_snapshot('hist_heap', hist_details['name']) == old(event['context']['State']['Name']))"),
